@@ -62,6 +62,7 @@ for _m in ["GET", "HEAD", "POST", "PUT", "DELETE", "CONNECT", "OPTIONS", "TRACE"
     CTORS[("Method", _m)] = (_m, None)
 CTORS.update({("Phase", "SendLine"): ("PLine", None), ("Phase", "SendHeaders"): ("PHeaders", "usize"), ("Phase", "SendBody"): ("PBody", None),
               ("Phase", "RecvResponse"): ("PRecvResponse", None), ("Phase", "RecvBody"): ("PRecvBody", None)})
+CTORS.update({("RedirectAuthHeaders", "Never"): ("Never", None), ("RedirectAuthHeaders", "SameHost"): ("SameHost", None)})
 ENUM_EQB = {"Dechunker": "dechunker_eqb", "Method": "method_eqb"}
 STRUCTS = {"Pos": ["index_in", "index_out"]}
 # records flattened into their fields when they are the `self` of a method: impl type -> [(field, rust type)]
@@ -437,6 +438,8 @@ class Tr(object):
                 return "Some %s" % t, env
             if segs == ["None"]:
                 return "None", env
+            if segs == ["Err"] and p[2] and p[2][0][0] == "pwild":
+                return "None", env          # Err(_) of a std Result that the model reads as an option
             if len(segs) >= 2:
                 c = self.ctor(segs)
                 if c:
@@ -727,6 +730,9 @@ class Tr(object):
                 t = self.fresh()
                 return self.cps(inner[1], env, lambda v, env2: "match %s with Some %s => %s | None => %s end" % (
                     v, t, k(t, env2), self.err_of(errv[2], env2)))
+            if inner[0] == "call" and inner[1][0] == "path" and len(inner[1][1]) == 1 and inner[1][1][0] in env and env[inner[1][1][0]].ty == "resfn":
+                t = self.fresh("r")
+                return self.bind_text(self.pure(inner, env), t, k(t, env), env)
             if self.ty_of(inner, env) == "res":
                 t = self.fresh("r")
                 return self.bind_text(self.pure(inner, env), t, k(t, env), env)
@@ -1167,6 +1173,11 @@ class Tr(object):
             return nxt(self.bind(env, name, B("view", b.coq, off=off)))
         structs = dict(STRUCTS)
         structs.update(self.cfg.get("structs", {}))
+        if x[0] == "mcall" and x[2] == "unwrap" and not x[3] and x[1][0] == "path" and len(x[1][1]) == 1 and x[1][1][0] in env \
+                and (env[x[1][1][0]].ty or "").startswith("Option<"):
+            c = cn(name)
+            return "match %s with Some %s => %s | None => %s end" % (
+                env[x[1][1][0]].coq, c, nxt(self.bind(env, name, B("val", c))), self.leaf_panic("%s: unwrap() of None in %s" % (self.cfg["file"], self.cfg["rust"])))
         if x[0] == "mcall" and x[2] == "unwrap" and not x[3] and x[1][0] == "mcall" and x[1][2] in ("as_mut", "as_ref") and not x[1][3]:
             pl = self.place_of(x[1][1], env)
             inner = x[1][1]
@@ -1533,6 +1544,9 @@ Definition resp_get_content_length (r : response) : option bytes := hm_get (rs_h
 Definition resp_text_lookup (r : response) : bytes -> option bytes := lookup_text (rs_headers r).
 (* AmendedRequest::set_header on the list of added headers: the model's am_set_header (validated name and value, lower-cased name,
    the ArrayVec's capacity) *)
+(* AmendedRequest::unset_header on the suppression list: the model's am_unset_header (capacity of the ArrayVec) *)
+Definition unset_header_list (unset : list bytes) (k : bytes) : res (list bytes * unit) :=
+  if UNSET_CAP <=? len unset then Panic "util.rs: ArrayVec::push (unset)" else Ok (unset ++ [k], tt).
 Definition set_header_list (added : list header) (k v : bytes) : res (list header * unit) :=
   if negb (valid_header_name k && valid_header_value v) then Err BadHeader
   else if MAX_EXTRA_HEADERS <=? len added then Panic "util.rs: ArrayVec::push (extra headers)"
@@ -1758,6 +1772,26 @@ FLOWFUNCS = [
          params=[("writer", "recmut:BodyWriter", "", None), ("is_prelude", "val", "bool", None), ("is_body", "val", "bool", None),
                  ("prelude_result", "val", "res unit", "res"), ("input", "val", "bytes", None), ("w", "writer", "", None)],
          rust_ret="Result<(usize, usize), Error>"),
+    # src/client/flow.rs: Flow<Redirect>::as_new_flow -- the Location must be there and be text; the target is resolved against the
+    # previous request (a function parameter: the url crate stays modelled); the method table; the previous request is taken and the
+    # next flow built (result parameters); which inherited headers the next request suppresses, in which order, depends on the policy
+    # and on whether the target may keep the credentials (a function parameter of the target).  Result: the suppression list and the
+    # new method and URI, or None when the redirect is not followed.
+    dict(coq="gen_as_new_flow", file="src/client/flow.rs", impl=r"impl<B>\s+Flow<B,\s*Redirect>", rust="as_new_flow",
+         subst=[(r"&self\.inner\.location", "inner_location"), (r"let previous = self\.inner\.call\.request_mut\(\);", ""),
+                (r"self\.inner\.status\.unwrap\(\)", "inner_status.unwrap()"), (r"let method = previous\.method\(\);", ""),
+                (r"previous\.new_uri_from_location\(location\)\?", "resolve_location(location)?"),
+                (r"let mut request = previous\.take_request\(\);", "take_request_result?;"), (r"\*request\.method_mut\(\) = new_method;", ""),
+                (r"let mut next = Flow::new\(request\)\?;", "flow_new_result?;"), (r"let request = next\.inner\.call\.request_mut\(\);", ""),
+                (r"can_redirect_auth_header\(request\.uri\(\), &uri\)", "may_keep_auth(uri)"), (r"request\.set_uri\(uri\);", ""),
+                (r"request\.unset_header\(", "unset_header(&mut unset, "), (r"Ok\(Some\(next\)\)", "Ok(Some((new_method, uri)))")],
+         params=[("unset", "mutval", "list bytes", None), ("inner_location", "val", "option bytes", None), ("inner_status", "val", "option N", "Option<u16>"),
+                 ("method", "val", "Request.method", "Method"), ("redirect_auth_headers", "val", "auth_policy", None),
+                 ("resolve_location", "val", "bytes -> res uri", "resfn"), ("may_keep_auth", "val", "uri -> bool", None),
+                 ("take_request_result", "val", "res unit", "res"), ("flow_new_result", "val", "res unit", "res")],
+         methods={"is_redirect_retaining_status": "gen_is_retaining", "need_request_body": "gen_need_request_body"},
+         known_state2=[("unset_header", "unset_header_list")],
+         rust_ret="Result<Option<Flow<B, Prepare>>, Error>"),
     # src/client/call.rs: Call::analyze_request -- runs once; inserts Host from the URI and the body framing header when the caller gave
     # none; installs the body writer the analysis chose.  The analysis itself (gen_analyze) is a value here, AmendedRequest::set_header
     # is the model's reading of it on the list of added headers (name lower-cased and validated, capacity of the ArrayVec), the URI's
@@ -1860,6 +1894,8 @@ def translate_custom(text, cfg, known_all=None, err_mode=False):
     known = dict(((None, n), FnInfo(n, [("r", "val", "")], "plain")) for n in cfg.get("known", []))
     for rust, coq, arity in cfg.get("known_res", []):
         known[(None, rust)] = FnInfo(coq, [("a%d" % i, "val", "") for i in range(arity)], "res")
+    for rust, coq in cfg.get("known_state2", []):
+        known[(None, rust)] = FnInfo(coq, [("l", "mutval", ""), ("k", "val", "")], "res")
     for rust, coq in cfg.get("known_state", []):
         # a modelled operation on a list held in a mutable parameter: f(&mut list, key, value) -> Result<(), Error>
         known[(None, rust)] = FnInfo(coq, [("l", "mutval", ""), ("k", "val", ""), ("v", "val", "")], "res")
